@@ -11,7 +11,8 @@ RULE = ("validated models from every class in the JSON class map (AtLeast with e
         "to_json -> json.dumps -> json.loads -> from_json; checked: same leaves with the same bounds, equal evaluation on assignments (exhaustive <= cap, "
         "else random), explicit ids kept and no id emitted for generated ones, configurators: same default_prios and ge_polyhedron; "
         "non-trivial = a non-atom child under Imply/XNor/a cc rule, or a non-default sign; distinct by canonical text. "
-        "Known findings kept in dedicated streams: D6 (XNor with a compound child), D13 (pre-fixed sub-proposition bounds are not serialised)")
+        "Known findings kept in dedicated streams: D6 (XNor with a compound child), D13 (pre-fixed sub-proposition bounds are not serialised), "
+        "D15 (generated helper ids of negation results / explicitly signed nodes are not reproduced)")
 
 def jterm(x, it):
     if isinstance(x, bool): raise ValueError("bool in json")
@@ -65,11 +66,23 @@ def oracle_model(res, ast, m, rng, n_env, cap, cfg=False):
             return f"original evaluates to {a}, round-tripped to {b_} at {env}"
     if cfg:
         p1, p2 = m.ge_polyhedron, m2.ge_polyhedron
-        if sorted(m.default_prios.items()) != sorted(m2.default_prios.items()):
-            return f"default_prios differ: {sorted(m.default_prios.items())} vs {sorted(m2.default_prios.items())}"
-        if np.asarray(p1).tolist() != np.asarray(p2).tolist() or [v.id for v in p1.variables] != [v.id for v in p2.variables] \
-           or list(map(int, p1.default_prio_vector)) != list(map(int, p2.default_prio_vector)):
-            return "ge_polyhedron of the round-tripped configurator differs"
+        same = (np.asarray(p1).tolist() == np.asarray(p2).tolist() and [v.id for v in p1.variables] == [v.id for v in p2.variables]
+                and list(map(int, p1.default_prio_vector)) == list(map(int, p2.default_prio_vector))
+                and sorted(m.default_prios.items()) == sorted(m2.default_prios.items()))
+        if not same:
+            # finding D15: generated helper ids are not reproduced (the id hash includes the sign ARGUMENT, which
+            # negate() passes explicitly and from_json cannot); everything else must still agree
+            gen1 = {x.id for x in all_nodes(m) if not is_var(x) and x.generated_id}
+            gen2 = {x.id for x in all_nodes(m2) if not is_var(x) and x.generated_id}
+            fixed1 = sorted((v.id, v.bounds.as_tuple()) for v in p1.variables[1:] if v.id not in gen1)
+            fixed2 = sorted((v.id, v.bounds.as_tuple()) for v in p2.variables[1:] if v.id not in gen2)
+            dp1, dp2 = m.default_prios, m2.default_prios
+            if (gen1 != gen2 and fixed1 == fixed2 and np.asarray(p1).shape == np.asarray(p2).shape
+                    and sorted(dp1[i] for i in dp1 if i in gen1) == sorted(dp2[i] for i in dp2 if i in gen2)
+                    and sorted((k, v) for k, v in dp1.items() if k not in gen1) == sorted((k, v) for k, v in dp2.items() if k not in gen2)
+                    and sorted(np.asarray(p1)[:, 0].tolist()) == sorted(np.asarray(p2)[:, 0].tolist())):
+                return "D15: generated helper ids differ after the round trip: " + str(sorted(gen1 - gen2))[:120] + " vs " + str(sorted(gen2 - gen1))[:120]
+            return "ge_polyhedron / default_prios of the round-tripped configurator differ"
     return None
 
 def xnor_with_compound(m):
@@ -144,6 +157,26 @@ def run(res, tier, seed):
         if problem:
             res.violation("oracle", f"JSON round trip of configurator {m!r}: {problem}", {"op": "roundtrip", "model": ast_json(ast), "cfg": True, "problem": problem})
         add_corr(m, True)
+    # finding D15: configurators with a negated rule or an explicitly signed AtLeast rule at the top
+    for _ in range(40 if tier == "quick" else 400):
+        g = ConfigGen(random.Random(rng.getrandbits(64)))
+        ast = g.config(nrules=rng.randint(1, 2))
+        extra = rng.choice([{"k": "Not", "ch": [{"k": "All", "ch": g.leaves(2, 2), "id": None}], "id": None},
+                            {"k": "AtLeast", "v": 2, "s": 1, "ch": g.leaves(3, 3), "id": None},
+                            {"k": "Not", "ch": [{"k": "Any", "ch": g.leaves(2, 3), "id": None}], "id": None}])
+        ast["ch"].append(extra)
+        try:
+            m = build(ast)
+            if m.errors():
+                continue
+        except Exception:
+            continue
+        res.count("stream_D15")
+        problem = oracle_model(res, ast, m, rng, 6, 0, cfg=True)
+        if problem and problem.startswith("D15:"):
+            res.known_finding("D15", f"generated ids are not stable under the JSON round trip when the sign was passed explicitly (every negate()/Not result): the round-tripped configurator's polyhedron and default_prios use different helper ids, e.g. {m!r}: {problem}"[:420])
+        elif problem:
+            res.violation("oracle", f"JSON round trip of configurator {m!r}: {problem}", {"op": "roundtrip", "model": ast_json(ast), "cfg": True, "problem": problem})
     # known-finding streams: a failure is attributed to a finding only by its classifier, anything else is a violation
     def classify(ast):
         subs = sorted(sub_asts(ast), key=ast_size)
